@@ -224,6 +224,18 @@ func apply(t *thread) bool {
 	return true
 }
 
+// Quiet, when set, reports that no goroutine outside the scheduler can run (all are parked or finished). It makes the
+// treatment of threads parked on channels a state observation instead of a timeout, and serialises uncontrolled
+// goroutines with the controlled steps. Set per scenario by the harness.
+var Quiet func() bool
+
+func waitStep() time.Duration {
+	if Quiet != nil {
+		return time.Millisecond
+	}
+	return 20 * time.Millisecond
+}
+
 // Run executes one schedule: bodies are the request threads; prefix is the list of choices to replay (then choice 0).
 func Run(bodies []func(), prefix []int) *Execution {
 	mu.Lock()
@@ -277,8 +289,24 @@ func Run(bodies []func(), prefix []int) *Execution {
 					} else {
 						m.t.ext = false // a thread that was blocked outside the model came back
 					}
-				case <-time.After(20 * time.Millisecond):
+				case <-time.After(waitStep()):
 					waited++
+					if Quiet != nil {
+						// state-based: the thread is parked on something the model does not know (a channel) and no
+						// uncontrolled goroutine can run any more, so only another controlled thread can release it
+						if blockedOutside(goroutineState(current.gid)) && Quiet() && Quiet() {
+							mu.Lock()
+							current.ext = true
+							mu.Unlock()
+							ex.ExtBlocks++
+							settled = true
+						}
+						if waited > 60000 {
+							ex.Deadlock = fmt.Sprintf("thread %d (%s) neither reached a scheduling point nor finished within the watchdog: %s", current.id, current.name, goroutineState(current.gid))
+							return ex
+						}
+						break
+					}
 					if st := goroutineState(current.gid); waited >= 2 && blockedOutside(st) {
 						mu.Lock()
 						current.ext = true
@@ -294,6 +322,13 @@ func Run(bodies []func(), prefix []int) *Execution {
 				if settled {
 					break
 				}
+			}
+		}
+		// with the quiet gate, uncontrolled goroutines (worker pools started before the run) finish what the last step
+		// handed them before the next thread is chosen, so that their work never overlaps a controlled step
+		if Quiet != nil {
+			for i := 0; i < 20000 && !(Quiet() && Quiet()); i++ {
+				time.Sleep(100 * time.Microsecond)
 			}
 		}
 		// drain arrivals from threads that woke up on their own
